@@ -225,7 +225,7 @@ func init() {
 		for _, cls := range codecClasses {
 			ms := append([]string(nil), classBoundary[cls]...)
 			for i := 0; i < nrand; i++ {
-				ms = append(ms, randMember(r0, cls))
+				ms = append(ms, cdRandMember(r0, cls))
 			}
 			for _, m := range ms {
 				for _, ctx := range []string{"str", "chr"} {
@@ -245,27 +245,27 @@ func init() {
 		if c.thorough() {
 			nt = 1500
 		}
-		scalars := []member{{gNil(), "nil"}, {gBool(true), "bool"}, {gBool(false), "bool"}}
+		scalars := []cdMember{{gNil(), "nil"}, {gBool(true), "bool"}, {gBool(false), "bool"}}
 		for _, i := range gridInts {
-			scalars = append(scalars, member{gInt(i), "int"})
+			scalars = append(scalars, cdMember{gInt(i), "int"})
 		}
 		for _, u := range []uint64{0, 12, 1 << 63, math.MaxUint64} {
-			scalars = append(scalars, member{gUint(u), "uint"})
+			scalars = append(scalars, cdMember{gUint(u), "uint"})
 		}
 		scalars = append(scalars, gridFloats(false)...)
 		scalars = append(scalars, stringMembers(r1, nt, true)...)
-		scalars = append(scalars, member{gExpr("`back\"tick\\n and 'more'`"), "str-backtick"}, member{gExpr("`line1\nline2`"), "str-backtick"})
-		jsonScalars := append([]member(nil), scalars...)
+		scalars = append(scalars, cdMember{gExpr("`back\"tick\\n and 'more'`"), "str-backtick"}, cdMember{gExpr("`line1\nline2`"), "str-backtick"})
+		jsonScalars := append([]cdMember(nil), scalars...)
 		for _, cls := range codecClasses[:len(codecClasses)-1] {
 			for _, m := range classBoundary[cls] {
-				scalars = append(scalars, member{gChr([]rune(m)[0]), "chr-" + cls})
+				scalars = append(scalars, cdMember{gChr([]rune(m)[0]), "chr-" + cls})
 			}
 			for i := 0; i < 3; i++ {
-				scalars = append(scalars, member{gChr([]rune(randMember(r1, cls))[0]), "chr-" + cls})
+				scalars = append(scalars, cdMember{gChr([]rune(cdRandMember(r1, cls))[0]), "chr-" + cls})
 			}
 		}
 		for _, s := range []string{"a", "foo", "foo_bar", "x1", "+", "-", "*", "/", "==", "<=", "!=", "->", "a.b", ".a", "#sig", "$", "&", "quote", "hash", "\u00e9t\u00e9", "nil?", "a_b", "**", "mod"} {
-			scalars = append(scalars, member{gSym(s), "sym"})
+			scalars = append(scalars, cdMember{gSym(s), "sym"})
 		}
 		one, s := gInt(1), gStr("s")
 		ctxs := []struct {
@@ -306,14 +306,14 @@ func init() {
 		}
 		// (b) every value of depth <= 2 with <= 2 children over palettes of scalar classes
 		pRead := []*gval{gNil(), gBool(true), gInt(7), gFlt(2.5, false), gFlt(1.0, false), gStr("x"), gChr('c'), gSym("q")}
-		for i, t := range enumTrees(pRead, []string{"list", "arr"}, 2) {
+		for i, t := range cdEnumTrees(pRead, []string{"list", "arr"}, 2) {
 			if !c.thorough() && t.depth() == 2 && len(t.E) == 2 && !hashSel(c.seed, i, 1, 16) {
 				continue
 			}
 			emit("b", t, "tree-read")
 		}
 		pEval := []*gval{gNil(), gBool(true), gInt(-7), gFlt(2.5, false), gFlt(1.0, false), gStr("x")}
-		for i, t := range enumTrees(pEval, []string{"arr", "hash"}, 2) {
+		for i, t := range cdEnumTrees(pEval, []string{"arr", "hash"}, 2) {
 			if !t.hasKind("hash") {
 				continue // covered by the read palette
 			}
@@ -342,9 +342,9 @@ func init() {
 			r := newRng(c.seed, uint64(2000+i))
 			var t *gval
 			if i%2 == 0 {
-				t = randTree(r, scalars, []string{"list", "arr"}, keyNames, false, 3)
+				t = cdRandTree(r, scalars, []string{"list", "arr"}, keyNames, false, 3)
 			} else {
-				t = randTree(r, jsonScalars, []string{"arr", "hash", "hash"}, keyNames, i%6 == 1, 3)
+				t = cdRandTree(r, jsonScalars, []string{"arr", "hash", "hash"}, keyNames, i%6 == 1, 3)
 			}
 			emit("r", t, "random")
 		}
